@@ -132,3 +132,18 @@ CLAIMED = {
 }
 
 NOT_APPLICABLE = {}
+
+
+# sentences appended to the level text of a property (rules added after the main text was written)
+EXTRA_TEXT = {
+    "C01": " Endless iterators (cycle/repeat) may only be consumed by adaptors that pull a bounded number of items; loop finiteness is judged on the resolved iterator type (Zip/Take/Chain aware).",
+    "C02": " After the root start tag every successful path passes the test that adds the end tag of an empty-element root; every input event is UTF-8 validated before it is stored.",
+    "C03": " Also: the writer's attribute/text sinks escape unconditionally; the real-SVG test scans the whole event list up to the first element; the XML reader keeps quick-xml's default configuration; the reader/element/writer path applies no string operation beyond nine reviewed ones.",
+    "C05": " Also: the real-SVG test scans the whole event list; the reader keeps its default configuration (input acceptance matches what the writer emits); an empty-element root is closed on every path.",
+    "C06": " Between a hash iteration and its sort no order-selecting adaptor (take/skip/zip/enumerate ...) occurs; the reviewed <reuse> override loop writes only the key it visits (checked).",
+    "C04": " All six SVG transform function names are matched under their standard spelling.",
+    "C17": " A limit configured by <config> is the parsed value itself (no clamping).",
+    "C11": " End to end through the affine evaluator: set_position_attrs writes exactly the box the two constraints per axis define, moved by dx/dy, for rect/circle/ellipse x 36 constraint combinations (216 cases), and From<&SvgElement> for Position reads every admissible spelling into the field of its role (279 cases).",
+    "C08": " Also: xfrm_scale / xfrm_translate as terms; the Option returned by intersect() for a clipped element is stored untested (None when disjoint).",
+    "C09": " Also: an x-like attribute referencing `#id@loc dx dy` takes the x of the location plus dx (y-like: y plus dy), `~scalar delta` adjusts the named scalar (pos_attr_helper, 15 cases).",
+}
